@@ -252,7 +252,13 @@ func c17Build(s *c17Script, asm bool) *c17World {
 	for i := 0; i < s.NSealed; i++ {
 		ai, mi, di := i%len(w.aeads), i%len(w.msgs), i%len(w.aads)
 		nonce := cloneSlack(seededBytes(s.KeySeed^uint64(0x100+i), w.specs[ai].NonceSize, false))
-		ct := w.aeads[ai].Seal(nil, nonce, w.msgs[mi], w.aads[di])
+		// sealed by a throwaway object: the shared AEADs must reach the tasks unused, so that
+		// anything they initialise lazily is initialised under concurrency
+		tmp, _, _, err := mkAEADKey(s.AEADs[ai], unhx(s.AEADs[ai].Key), asm)
+		if err != nil {
+			panic(err)
+		}
+		ct := tmp.Seal(nil, nonce, w.msgs[mi], w.aads[di])
 		w.nonces, w.cts = append(w.nonces, nonce), append(w.cts, cloneSlack(ct))
 		w.ctA, w.ctM, w.ctD = append(w.ctA, ai), append(w.ctM, mi), append(w.ctD, di)
 	}
